@@ -89,7 +89,7 @@ def main():
                     open(f"{dst}/demo.py", "w").write(open(f"{sd}/demo.py").read())
                     props = {json.loads(l)["id"]: json.loads(l) for l in open("/verif/properties.jsonl")}
                     notes = [l.strip() for l in open(f"{sd}/notes.md") if l.strip()][:12]
-                    meta = {"property": pid, "title": props[pid]["title"], "round": {"a": 1, "b": 1, "c": 2, "d": 2, "e": 3, "f": 3, "g": 4, "h": 4, "i": 5, "j": 5, "k": 6, "l": 6, "m": 7, "n": 7, "o": 8, "p": 8, "q": 9, "r": 9}.get(x, 0),
+                    meta = {"property": pid, "title": props[pid]["title"], "round": {"a": 1, "b": 1, "c": 2, "d": 2, "e": 3, "f": 3, "g": 4, "h": 4, "i": 5, "j": 5, "k": 6, "l": 6, "m": 7, "n": 7, "o": 8, "p": 8, "q": 9, "r": 9, "s": 10, "t": 10}.get(x, 0),
                             "source": "written by an independent sub-agent that was given only the property text and its own scratch worktree of /repo",
                             "rebased": False, "rebased_note": None, "needs_to_manifest": notes,
                             "confirmed": {"how": "tools/seed_pipeline.py: scratch worktree of /repo HEAD under /tmp/confirm: demo.py on the clean tree (exit 0), git apply patch.diff, demo.py (exit 1), full pytest suite at baseline; worktree removed afterwards",
